@@ -27,7 +27,7 @@ def hashers(f):
     return [h for h in out if h[0] in f.types]
 
 
-def hooks_for(family, t):
+def hooks_for(family, t, f=None):
     if family == "blake":
         w = 32 if ("224" in t or "256" in t) else 64
         c = 256 if w == 32 else 512
@@ -37,7 +37,7 @@ def hooks_for(family, t):
         return check_skein.tf_hooks(None)
     if family == "groestl":
         big = "384" in t or "512" in t
-        return check_groestl.opaque_compressor_hooks("Compressor1024" if big else "Compressor512", 16 if big else 8)
+        return check_groestl.opaque_compressor_hooks("Compressor1024" if big else "Compressor512", 16 if big else 8, f)
     if family == "jh":
         return {r"^jh_x86_64::compressor::Compressor::input$": check_jh.input_hook}
     raise KeyError(family)
@@ -116,7 +116,7 @@ def c08_clone_reset(report, cfg):
 
             def go():
                 bv.reset()
-                it = Interp(f, MODELS, hooks=hooks_for(fam, t))
+                it = Interp(f, MODELS, hooks=hooks_for(fam, t, f))
                 cl = find(f, r"^<%s as core::clone::Clone>::clone$" % re.escape(t))
                 rs = find(f, r"^<%s as digest::Reset>::reset$" % re.escape(t))
                 df = find(f, r"^<%s as core::default::Default>::default$" % re.escape(t))
@@ -160,7 +160,7 @@ def c08_chunking(report, cfg, only=None):
 
                     def go():
                         bv.reset()
-                        it = Interp(f, MODELS, hooks=hooks_for(fam, t))
+                        it = Interp(f, MODELS, hooks=hooks_for(fam, t, f))
                         v = sym_hasher(it, t, p)
                         c1 = it.new_cell(v, "h1")
                         c2 = it.new_cell(v, "h2")
